@@ -36,11 +36,22 @@ type actPattern struct {
 }
 
 func SyntheticRegistries(run *core.Run, p *Preset, thorough bool, st *SynthStats) {
+	SyntheticRegistriesFor(run, p, thorough, st, "C07")
+}
+
+// SyntheticRegistriesFor: prop "C07" evaluates the committee hook (context vs specification), prop "C08" the context
+// hook (the context carried through the transitions vs a from-scratch one). Balances are either equal to the
+// effective balances or those of the neighbour (so that effective balances change a lot at the next epoch boundary).
+func SyntheticRegistriesFor(run *core.Run, p *Preset, thorough bool, st *SynthStats, prop string) {
+	hook := CommitteeHook
+	if prop == "C08" {
+		hook = ContextHook
+	}
 	w := NewWorld(p, run.Seed, 48)
 	c := w.C
 	g, err := w.Genesis()
 	if err != nil {
-		run.Report("C07/harness", "genesis: "+err.Error(), nil)
+		run.Report(prop+"/harness", "genesis: "+err.Error(), nil)
 		return
 	}
 	ctx := context.Background()
@@ -78,6 +89,9 @@ func SyntheticRegistries(run *core.Run, p *Preset, thorough bool, st *SynthStats
 	if !thorough {
 		sizes = []int{5, 16, 17, 31}
 	}
+	if prop == "C08" && !thorough {
+		sizes = []int{9, 17}
+	}
 	// base states: the default chain, one state per fork, taken in the middle of an epoch and at the last slot
 	// before a sync-committee period boundary
 	n := g
@@ -85,7 +99,7 @@ func SyntheticRegistries(run *core.Run, p *Preset, thorough bool, st *SynthStats
 	for slot := uint64(1); slot <= 22; slot++ {
 		nn := n.Branch()
 		if r := nn.StepBlock(ctx, slot, &Plan{Name: "default"}); r.Mismatch != "" {
-			run.Report("C07/harness", "base chain: "+r.Mismatch, nil)
+			run.Report(prop+"/harness", "base chain: "+r.Mismatch, nil)
 			return
 		}
 		n = nn
@@ -98,112 +112,117 @@ func SyntheticRegistries(run *core.Run, p *Preset, thorough bool, st *SynthStats
 		for _, size := range sizes {
 			for _, ep := range effs {
 				for _, ap := range acts {
-					if run.Expired() {
-						run.CapHit("synthetic registries: time budget")
-						return
-					}
-					ref := base.Ref.Copy(c)
-					// resize the registry
-					for len(ref.Validators) > size {
-						k := len(ref.Validators) - 1
-						ref.Validators, ref.Balances = ref.Validators[:k], ref.Balances[:k]
-						if ref.F >= refspec.Altair {
-							ref.PreviousEpochParticipation, ref.CurrentEpochParticipation, ref.InactivityScores = ref.PreviousEpochParticipation[:k], ref.CurrentEpochParticipation[:k], ref.InactivityScores[:k]
+					for _, balMode := range []string{"balances = effective balances", "balances of the neighbour"} {
+						if run.Expired() {
+							run.CapHit("synthetic registries: time budget")
+							return
 						}
-					}
-					for len(ref.Validators) < size {
-						k := len(ref.Validators)
-						ref.Validators = append(ref.Validators, refspec.Validator{Pubkey: w.Keys[k].PK, WithdrawalCredentials: BLSCreds(w.Keys[k].PK), WithdrawableEpoch: refspec.FarFutureEpoch, ExitEpoch: refspec.FarFutureEpoch})
-						ref.Balances = append(ref.Balances, 0)
-						if ref.F >= refspec.Altair {
-							ref.PreviousEpochParticipation, ref.CurrentEpochParticipation, ref.InactivityScores = append(ref.PreviousEpochParticipation, 0), append(ref.CurrentEpochParticipation, 0), append(ref.InactivityScores, 0)
-						}
-					}
-					if ref.F == refspec.Phase0 {
-						// pending attestations name committee positions of the old registry
-						ref.PreviousEpochAttestations, ref.CurrentEpochAttestations = nil, nil
-					}
-					for i := range ref.Validators {
-						v := &ref.Validators[i]
-						v.EffectiveBalance = ep.eff(i, size) * c.EffectiveBalanceIncrement
-						ref.Balances[i] = v.EffectiveBalance
-						v.ActivationEpoch, v.ExitEpoch = ap.f(i, size, cur)
-						v.ActivationEligibilityEpoch = 0
-						v.Slashed = false
-						v.WithdrawableEpoch = refspec.FarFutureEpoch
-						if v.ExitEpoch != refspec.FarFutureEpoch {
-							v.WithdrawableEpoch = v.ExitEpoch + c.MinValidatorWithdrawabilityDelay
-						}
-					}
-					if ref.F >= refspec.Capella && ref.NextWithdrawalValidatorIndex >= uint64(size) {
-						ref.NextWithdrawalValidatorIndex = 0
-					}
-					if ref.F >= refspec.Altair {
-						// the stored committees must name members of THIS registry: sample them from it
-						if len(ref.ActiveIndices(cur+1)) == 0 {
-							atomic.AddInt64(&st.Skipped, 1)
-							continue
-						}
-						sc := w.Env.NextSyncCommittee(ref)
-						ref.CurrentSyncCommittee, ref.NextSyncCommittee = sc, sc
-					}
-					desc := fmt.Sprintf("preset %s, base slot %d (%s), %d validators, effective balances %s, activity %s", p.Name, base.Ref.Slot, refspec.ForkNames[ref.F], size, ep.name, ap.name)
-					rep := func(sig, msg string) {
-						run.Report("C07/synthetic/"+sig, desc+": "+msg, map[string]interface{}{"engine": "enumx", "state": desc})
-					}
-					real, err := LoadReal(w.Spec, ref.F, ref.Encode(c))
-					if err != nil {
-						rep("load", "zrnt cannot load the state: "+err.Error())
-						continue
-					}
-					var epc *common.EpochsContext
-					if pm := guardS(func() { epc, err = common.NewEpochsContext(w.Spec, real) }); pm != "" || err != nil {
-						if len(ref.ActiveIndices(cur)) == 0 {
-							atomic.AddInt64(&st.Skipped, 1)
-							continue
-						}
-						rep("context", fmt.Sprintf("NewEpochsContext fails: %v %s", err, pm))
-						continue
-					}
-					node := &Node{W: w, Ref: ref, Real: &beacon.StandardUpgradeableBeaconState{BeaconState: real}, EPC: epc}
-					atomic.AddInt64(&st.States, 1)
-					if fs := CommitteeHook(node, ref.Slot); len(fs) > 0 {
-						rep(fs[0].Sig, fs[0].Msg)
-						continue
-					}
-					if ref.F >= refspec.Altair {
-						want := ref.NextSyncCommitteeIndices(c)
-						var active []common.ValidatorIndex
-						for _, i := range ref.ActiveIndices(cur+1) {
-							active = append(active, common.ValidatorIndex(i))
-						}
-						var got []common.ValidatorIndex
-						var serr error
-						if pm := guardS(func() { got, serr = common.ComputeSyncCommitteeIndices(w.Spec, real, common.Epoch(cur+1), active) }); pm != "" {
-							rep("panic/ComputeSyncCommitteeIndices", pm)
-							continue
-						}
-						if len(active) == 0 {
-							if serr == nil {
-								rep("sync-sampling", "no active validator but ComputeSyncCommitteeIndices returned no error")
+						ref := base.Ref.Copy(c)
+						// resize the registry
+						for len(ref.Validators) > size {
+							k := len(ref.Validators) - 1
+							ref.Validators, ref.Balances = ref.Validators[:k], ref.Balances[:k]
+							if ref.F >= refspec.Altair {
+								ref.PreviousEpochParticipation, ref.CurrentEpochParticipation, ref.InactivityScores = ref.PreviousEpochParticipation[:k], ref.CurrentEpochParticipation[:k], ref.InactivityScores[:k]
 							}
-						} else if serr != nil || fmt.Sprint(got) != fmt.Sprint(want) {
-							rep("sync-sampling", fmt.Sprintf("ComputeSyncCommitteeIndices(next epoch) = %v (err %v), get_next_sync_committee_indices: %v", got, serr, want))
+						}
+						for len(ref.Validators) < size {
+							k := len(ref.Validators)
+							ref.Validators = append(ref.Validators, refspec.Validator{Pubkey: w.Keys[k].PK, WithdrawalCredentials: BLSCreds(w.Keys[k].PK), WithdrawableEpoch: refspec.FarFutureEpoch, ExitEpoch: refspec.FarFutureEpoch})
+							ref.Balances = append(ref.Balances, 0)
+							if ref.F >= refspec.Altair {
+								ref.PreviousEpochParticipation, ref.CurrentEpochParticipation, ref.InactivityScores = append(ref.PreviousEpochParticipation, 0), append(ref.CurrentEpochParticipation, 0), append(ref.InactivityScores, 0)
+							}
+						}
+						if ref.F == refspec.Phase0 {
+							// pending attestations name committee positions of the old registry
+							ref.PreviousEpochAttestations, ref.CurrentEpochAttestations = nil, nil
+						}
+						for i := range ref.Validators {
+							v := &ref.Validators[i]
+							v.EffectiveBalance = ep.eff(i, size) * c.EffectiveBalanceIncrement
+							ref.Balances[i] = v.EffectiveBalance
+							if balMode != "balances = effective balances" {
+								ref.Balances[i] = ep.eff((i+1)%size, size) * c.EffectiveBalanceIncrement
+							}
+							v.ActivationEpoch, v.ExitEpoch = ap.f(i, size, cur)
+							v.ActivationEligibilityEpoch = 0
+							v.Slashed = false
+							v.WithdrawableEpoch = refspec.FarFutureEpoch
+							if v.ExitEpoch != refspec.FarFutureEpoch {
+								v.WithdrawableEpoch = v.ExitEpoch + c.MinValidatorWithdrawabilityDelay
+							}
+						}
+						if ref.F >= refspec.Capella && ref.NextWithdrawalValidatorIndex >= uint64(size) {
+							ref.NextWithdrawalValidatorIndex = 0
+						}
+						if ref.F >= refspec.Altair {
+							// the stored committees must name members of THIS registry: sample them from it
+							if len(ref.ActiveIndices(cur+1)) == 0 {
+								atomic.AddInt64(&st.Skipped, 1)
+								continue
+							}
+							sc := w.Env.NextSyncCommittee(ref)
+							ref.CurrentSyncCommittee, ref.NextSyncCommittee = sc, sc
+						}
+						desc := fmt.Sprintf("preset %s, base slot %d (%s), %d validators, effective balances %s, %s, activity %s", p.Name, base.Ref.Slot, refspec.ForkNames[ref.F], size, ep.name, balMode, ap.name)
+						rep := func(sig, msg string) {
+							run.Report(prop+"/synthetic/"+sig, desc+": "+msg, map[string]interface{}{"engine": "enumx", "state": desc})
+						}
+						real, err := LoadReal(w.Spec, ref.F, ref.Encode(c))
+						if err != nil {
+							rep("load", "zrnt cannot load the state: "+err.Error())
 							continue
 						}
-					}
-					// two epoch transitions, compared after every slot
-					end := (cur + 2) * c.SlotsPerEpoch
-					if len(ref.ActiveIndices(cur+1)) == 0 || len(ref.ActiveIndices(cur+2)) == 0 || len(ref.ActiveIndices(cur+3)) == 0 {
-						continue
-					}
-					atomic.AddInt64(&st.Transitions, int64(end-ref.Slot))
-					if r := node.StepSlots(ctx, end); r.Mismatch != "" {
-						rep("transition/"+r.Sig, r.Mismatch)
-						continue
-					}
-					if fs := CommitteeHook(node, node.Ref.Slot); len(fs) > 0 {
-						rep("after-transition/"+fs[0].Sig, fs[0].Msg)
+						var epc *common.EpochsContext
+						if pm := guardS(func() { epc, err = common.NewEpochsContext(w.Spec, real) }); pm != "" || err != nil {
+							if len(ref.ActiveIndices(cur)) == 0 {
+								atomic.AddInt64(&st.Skipped, 1)
+								continue
+							}
+							rep("context", fmt.Sprintf("NewEpochsContext fails: %v %s", err, pm))
+							continue
+						}
+						node := &Node{W: w, Ref: ref, Real: &beacon.StandardUpgradeableBeaconState{BeaconState: real}, EPC: epc}
+						atomic.AddInt64(&st.States, 1)
+						if fs := hook(node, ref.Slot); len(fs) > 0 {
+							rep(fs[0].Sig, fs[0].Msg)
+							continue
+						}
+						if ref.F >= refspec.Altair {
+							want := ref.NextSyncCommitteeIndices(c)
+							var active []common.ValidatorIndex
+							for _, i := range ref.ActiveIndices(cur + 1) {
+								active = append(active, common.ValidatorIndex(i))
+							}
+							var got []common.ValidatorIndex
+							var serr error
+							if pm := guardS(func() { got, serr = common.ComputeSyncCommitteeIndices(w.Spec, real, common.Epoch(cur+1), active) }); pm != "" {
+								rep("panic/ComputeSyncCommitteeIndices", pm)
+								continue
+							}
+							if len(active) == 0 {
+								if serr == nil {
+									rep("sync-sampling", "no active validator but ComputeSyncCommitteeIndices returned no error")
+								}
+							} else if serr != nil || fmt.Sprint(got) != fmt.Sprint(want) {
+								rep("sync-sampling", fmt.Sprintf("ComputeSyncCommitteeIndices(next epoch) = %v (err %v), get_next_sync_committee_indices: %v", got, serr, want))
+								continue
+							}
+						}
+						// two epoch transitions, compared after every slot
+						end := (cur + 2) * c.SlotsPerEpoch
+						if len(ref.ActiveIndices(cur+1)) == 0 || len(ref.ActiveIndices(cur+2)) == 0 || len(ref.ActiveIndices(cur+3)) == 0 {
+							continue
+						}
+						atomic.AddInt64(&st.Transitions, int64(end-ref.Slot))
+						if r := node.StepSlots(ctx, end); r.Mismatch != "" {
+							rep("transition/"+r.Sig, r.Mismatch)
+							continue
+						}
+						if fs := hook(node, node.Ref.Slot); len(fs) > 0 {
+							rep("after-transition/"+fs[0].Sig, fs[0].Msg)
+						}
 					}
 				}
 			}
@@ -229,6 +248,7 @@ func guardS(f func()) (pm string) {
 //     (everyone, nobody, exactly two thirds of the stake, just below two thirds, target without source);
 //   - balances around both hysteresis thresholds, a slashed validator at its correlation-penalty epoch with a small
 //     or a large slashings sum, inactivity scores 0 / small / large;
+//
 // then ONE epoch transition is run on both sides and the states are compared. These are states no short chain of
 // the menus reaches (e.g. all finalization rules with every bit pattern).
 func SyntheticEpochs(run *core.Run, p *Preset, thorough bool, st *SynthStats) {
